@@ -99,6 +99,9 @@ def connOp (w : World) (toks : List String) : Option (World × String) :=
     let r := connWrite w.st w.tr b
     let w' := { w with st := r.st, tr := r.tr, outSeen := r.tr.out.length }
     some (w', s!"n={r.n} err={errStr r.err} out={outDelta w r.tr} closed={if r.tr.closed then 1 else 0}")
+  | ["names"] =>
+    -- Conn.ServerName() / Conn.ALPNProtos() as they are NOW (they must not drift after the first flight)
+    some (w, s!"sni={hex w.st.serverName} alpn={hexList w.st.alpn}")
   | ["state"] =>
     some (w, s!"retry={w.st.retry} readPT={w.st.readPT} writePT={w.st.writePT} readBuf={w.st.readBuf.length} writeBuf={w.st.writeBuf.length} seq={(w.st.ctx.map (·.seq)).getD 0}")
   | _ => none
